@@ -481,6 +481,33 @@ def c16_require(agg):
     return need
 
 
+# ------------------------------------------------------------------ C17
+
+def c17_env(b):
+    e = {}
+    if b % 3 == 1:
+        e["IPCMON_DELAY"] = "%d:%d:%d" % (b + 19, 120, 300)
+    if b % 3 == 2:
+        e["IPCMON_WIDEN"] = "4:300:0"
+    return e
+
+
+def c17_plan(tier, seed):
+    q = tier == "quick"
+    out = jobs("os-debug", "c17", 12 if q else 28, c17_env, {"cases": 30 if q else 350}, timeout=3000)
+    out += jobs("inproc-debug", "c17", 3 if q else 6, None, {"cases": 30 if q else 350}, timeout=3000)
+    return out
+
+
+def c17_require(agg):
+    st = agg["stats"]
+    need = []
+    for k, n in (("stop_shutdown", 100), ("stop_proxy-drop", 50), ("racing_add_route_threads", 50), ("callback_invocations", 1000)):
+        if st.get(k, 0) < n:
+            need.append("%s < %d" % (k, n))
+    return need
+
+
 # ------------------------------------------------------------------ C19
 
 def c19_plan(tier, seed):
@@ -534,6 +561,20 @@ NOTES = ("Runtime monitoring and sanitizers. ./check <id> rebuilds the harness (
 NOT_APPLICABLE = {}
 
 PROPS = {
+    "C17": {
+        "plan": c17_plan,
+        "require": c17_require,
+        "level": "exploration",
+        "level_text": "Exploration: fresh routers with 0..16 live routes (callback with drop guards, crossbeam-forwarding) and producers sending continuously are stopped "
+                      "either by shutdown() from 1..4 threads racing add_route from 0..3 others, or by dropping the proxy, while the producers keep sending and further "
+                      "routes are offered afterwards. Stamped logs decide: no callback invocation starts after shutdown's first return; every previously registered "
+                      "guard fired by then (proxy drop: eventually, by the logical wait); racing routes are dropped by the time both calls returned; routes offered "
+                      "after the stop are dropped uninvoked; crossbeam consumers are disconnected; the process-wide panic hook stayed silent; every stop call returned.",
+        "level_note": "'Every call returns' and 'eventually dropped' use the logical hang rule (all other threads asleep without CPU use) after a 20 s grace.",
+        "technique": "runtime monitoring: stamped callback/drop-guard logs against shutdown return stamps, process-wide panic hook, logical hang detection on shutdown/add_route",
+        "rule": "case = one router scenario; distinct = hash of the invoke/drop event order by route together with the stop kind; all are non-trivial",
+        "assumptions": ["callbacks log their start stamp as their first action"],
+    },
     "C16": {
         "plan": c16_plan,
         "require": c16_require,
